@@ -40,6 +40,11 @@ WHAT MAKES A GOOD SEEDED CHANGE
   a change that makes every call fail.
 * It must not depend on wall-clock time, randomness without a seed, or the environment.
 * The {n} changes must have different root causes / touch different mechanisms (ideally different functions).
+* Spread them over different KINDS of trigger. Aim for: one that depends on a size or count threshold or on a
+  rarely taken branch/fast path; one that depends on the dtype / byte order / memory layout / container type of an
+  argument or on an option combination; one that needs a sequence of calls on the same object or the same arrays
+  (state carried between calls); and (where the property's code has C/C++ parts) one in the C/C++ source. Prefer
+  triggers that a random test with "typical" inputs would hit less than once in a few thousand cases.
 * Do not touch the tests. Do not add new files to the library. No comments that give the bug away.
 
 DELIVERABLE — for each change k = 1..{n} a directory {wt}-out/m{{k}}/ containing:
